@@ -13,11 +13,13 @@ fn scenario(id: &str) -> Option<&'static dyn Scenario> {
     Some(match id {
         "C01" => &scen::value::C01,
         "C11" => &scen::value::C11,
+        "C02" => &scen::hist::C02,
+        "C03" => &scen::hist::C03,
         _ => return None,
     })
 }
 
-pub const ALL: &[&str] = &["C01", "C11"];
+pub const ALL: &[&str] = &["C01", "C02", "C03", "C11"];
 
 fn tier_of(s: &str) -> Tier {
     match s {
